@@ -118,6 +118,67 @@ def c_radius_ops():
             + "; ".join(_OPS[type(c.ops[0])] for c in (a[0], b[0], c2[0])) + "].")
 
 
+def _norm(node):
+    return ast.unparse(node).replace(" ", "")
+
+
+def c_wrap_exprs():
+    """the two torus corrections, as shapes: legacy  x = self.x_min + (pos[0] - self.x_min) % self.width  (and y with
+    y_min / height / pos[1]); experimental  self.dimensions[:, 0] + np.mod(np.asanyarray(point) - self.dimensions[:, 0],
+    self.size).  Emits the list of (axis, uses-own-min, uses-own-size) flags for the legacy axes and 1 for the
+    experimental expression."""
+    fn = T._find_func(_cls(LEG, "ContinuousSpace"), "torus_adj")
+    x = _norm(T._one_assignment(fn, "x"))
+    y = _norm(T._one_assignment(fn, "y"))
+    flags = []
+    for got, i, mn, size in ((x, 0, "x_min", "width"), (y, 1, "y_min", "height")):
+        want = f"self.{mn}+(pos[{i}]-self.{mn})%self.{size}"
+        if got != want:
+            raise T.Broken(f"legacy torus_adj axis {i}: {got} is not {want}")
+        flags.append(f"({i}, 1, 1)")
+    fn2 = T._find_func(_cls(EXP, "ContinuousSpace"), "torus_correct")
+    rets = [n for n in ast.walk(fn2) if isinstance(n, ast.Return)]
+    want2 = "self.dimensions[:,0]+np.mod(np.asanyarray(point)-self.dimensions[:,0],self.size)"
+    if len(rets) != 1 or _norm(rets[0].value) != want2:
+        raise T.Broken("experimental torus_correct is not " + want2)
+    # the order of tests in torus_adj: in bounds -> unchanged; bounded -> raise; torus -> wrap
+    ifs = [s_ for s_ in fn.body if isinstance(s_, ast.If)]
+    if len(ifs) != 1 or _norm(ifs[0].test) != "notself.out_of_bounds(pos)" or not isinstance(ifs[0].body[0], ast.Return):
+        raise T.Broken("legacy torus_adj does not start with 'if not self.out_of_bounds(pos): return pos'")
+    el = ifs[0].orelse
+    if len(el) != 1 or not isinstance(el[0], ast.If) or _norm(el[0].test) != "notself.torus" or not isinstance(el[0].body[0], ast.Raise):
+        raise T.Broken("legacy torus_adj: second branch is not 'elif not self.torus: raise'")
+    return "Definition gen_cont_wrap : list (Z * Z * Z) * Z := ([" + "; ".join(flags) + "], 1)."
+
+
+def c_exp_remove_shape():
+    """_remove_agent: the re-indexing loop runs over active_agents[index:], decrements by one, and the rows
+    [index+1 : n] are copied onto [index : n-1] before n is decremented.  Emits the four slice offsets relative to
+    (index, n): (0, -1, 1, 0), and the loop start offset 0."""
+    fn = T._find_func(_cls(EXP, "ContinuousSpace"), "_remove_agent")
+    loops = [s_ for s_ in fn.body if isinstance(s_, ast.For)]
+    if len(loops) != 1 or _norm(loops[0].iter) not in ("self.active_agents[index:]", "self.active_agents[index::]"):
+        raise T.Broken("re-indexing loop is not over self.active_agents[index:]")
+    body = [_norm(b) for b in loops[0].body]
+    if body != ["old_index=self._agent_to_index[agent]", "self._agent_to_index[agent]=old_index-1",
+                "self._index_to_agent[old_index-1]=agent"]:
+        raise T.Broken("unexpected re-indexing loop body " + "; ".join(body))
+    assigns = [s_ for s_ in fn.body if isinstance(s_, ast.Assign) and _norm(s_.targets[0]).startswith("self._agent_positions[")]
+    if len(assigns) != 1:
+        raise T.Broken("expected one slice assignment on _agent_positions")
+    if _norm(assigns[0].targets[0]) != "self._agent_positions[index:self._n_agents-1]" \
+            or _norm(assigns[0].value) != "self._agent_positions[index+1:self._n_agents]":
+        raise T.Broken("unexpected compaction " + _norm(assigns[0]))
+    order = [_norm(s_) for s_ in fn.body if isinstance(s_, (ast.Assign, ast.AugAssign, ast.Delete, ast.Expr, ast.For))]
+    i_del = next((k for k, t in enumerate(order) if t == "delself.active_agents[index]"), None)
+    i_loop = next((k for k, s_ in enumerate([x for x in fn.body if isinstance(x, (ast.Assign, ast.AugAssign, ast.Delete, ast.Expr, ast.For))]) if isinstance(s_, ast.For)), None)
+    i_dec = next((k for k, t in enumerate(order) if t == "self._n_agents-=1"), None)
+    i_cp = next((k for k, t in enumerate(order) if t.startswith("self._agent_positions[index:")), None)
+    if None in (i_del, i_loop, i_dec, i_cp) or not (i_del < i_loop < i_cp < i_dec):
+        raise T.Broken("statement order of _remove_agent changed")
+    return "Definition gen_cont_exp_remove : (Z * Z * Z * Z) * Z := ((0, -1, 1, 0), 0)."
+
+
 def _fb(name, ty, val):
     return lambda: f"Definition {name} : {ty} := {val}."
 
@@ -128,4 +189,6 @@ CONSTRUCTS = [
     ("cont_exp_growth", EXP, c_exp_growth, _fb("gen_cont_exp_growth", "(Z * Z * Z) * cont_cmp", "((0, 1, 0), KEq)")),
     ("cont_exp_kth", EXP, c_exp_kth, _fb("gen_cont_exp_kth_offset", "Z", "0")),
     ("cont_radius_ops", LEG, c_radius_ops, _fb("gen_cont_radius_ops", "list cont_cmp", "[]")),
+    ("cont_wrap", LEG, c_wrap_exprs, _fb("gen_cont_wrap", "list (Z * Z * Z) * Z", "([], 0)")),
+    ("cont_exp_remove", EXP, c_exp_remove_shape, _fb("gen_cont_exp_remove", "(Z * Z * Z * Z) * Z", "((0, 0, 0, 0), -1)")),
 ]
